@@ -26,8 +26,14 @@ func newWorldLike(cfg drv.Config) *ecs.World {
 }
 
 // dumpLoadLeaf is the C17 oracle evaluated at every node of the pool exploration.
-func dumpLoadLeaf(x *drv.World, sc *engine.Scenario, cfg drv.Config, hist []model.Op) *drv.Violation {
+func dumpLoadLeaf(x *drv.World, sc *engine.Scenario, cfg drv.Config, hist []model.Op) (v *drv.Violation) {
 	step := len(hist)
+	defer func() {
+		// every call below is a valid call on a fresh/reset/loaded world: a panic is a violation
+		if r := recover(); r != nil {
+			v = viol("serial", step, "a valid dump/load/create/remove call panicked: %v", r)
+		}
+	}()
 	dump := x.W.Unsafe().DumpEntities()
 	// targets: (a) new world, (b) world with a history then Reset, (c) new world via a JSON round trip of the dump
 	mk := []func() (*ecs.World, ecs.EntityDump, string){
@@ -41,6 +47,14 @@ func dumpLoadLeaf(x *drv.World, sc *engine.Scenario, cfg drv.Config, hist []mode
 			w.RemoveEntity(e1)
 			w.Reset()
 			return w, dump, "reset world"
+		},
+		func() (*ecs.World, ecs.EntityDump, string) {
+			w := newWorldLike(cfg)
+			a, b := w.NewEntity(), w.NewEntity()
+			w.RemoveEntity(a)
+			w.RemoveEntity(b)
+			w.Reset()
+			return w, dump, "world emptied by removals and then reset"
 		},
 		func() (*ecs.World, ecs.EntityDump, string) {
 			b, err := json.Marshal(&dump)
